@@ -235,7 +235,17 @@ func (st *c01State) build(a Action) (body []byte, invalid bool, label string) {
 			cb = world.Callbacks[0]
 		}
 		var sent world.Sent
-		plain := mutateFields(r, cb.Build(r, &sent))
+		var plain []byte
+		if cb.Fields != nil && r.Intn(3) == 0 {
+			// field-aware: one byte-string field arrives empty, everything behind it stays aligned
+			body, prefixes := cb.Fields(r, &sent)
+			plain = body
+			if len(prefixes) > 0 {
+				plain = world.EmptyField(body, prefixes[r.Intn(len(prefixes))])
+			}
+		} else {
+			plain = mutateFields(r, cb.Build(r, &sent))
+		}
 		rid := st.outstanding(d)
 		b := d.Frame([]world.Pkg{{Cmd: cb.Cmd, RID: rid, Body: plain}})
 		return b, false, "corrupt-callback:" + cb.Name
